@@ -1,11 +1,211 @@
 /-
   ptdriver queries of the `dist` family: `(dist <query> args…)`.
   `none` = unparsable query.
+
+    (dist checkwf P)                 -> "true" | "false (r clause)…"
+    (dist levels P)                  -> "((r pid lvl)…)"
+    (dist trace P (event…))          -> "ok <steps>" | "bad <k> <reason>"
+    (dist batches G)                 -> "(((src dst tag)…)…)"
+    (dist diagnose n G)              -> "<ok|Class> (violated…) (find (r outcome)…) (verify …)"
+    (dist numbertags base ((t…)…))   -> "((t k)…) next"
+
+    P ::= (rank…)      rank ::= ((part…) (user…) (overall…))
+    part ::= (pid (needs…) (inputs…) (outputs…) ((name src tag)…) ((name dst tag)…) pure)
+    G ::= ((send…) (recv…))   send ::= (rank dst tag ((src tag)…))   recv ::= (rank src tag)
 -/
 import PtModel.Sexp
+import PtModel.Dist
 namespace Pt
+open Pt.Dist
 
+namespace DistIO
+
+def showNatList (vs : List Nat) : String := "(" ++ " ".intercalate (vs.map toString) ++ ")"
+
+def sortNats (l : List Nat) : List Nat := (l.mergeSort (fun a b => decide (a ≤ b))).eraseDups
+
+def pairLe (a b : Nat × Nat) : Bool := a.1 < b.1 || (a.1 == b.1 && a.2 ≤ b.2)
+def sortPairs (l : List (Nat × Nat)) : List (Nat × Nat) := (l.mergeSort pairLe).eraseDups
+
+def parseTriple : Sx → Option (Nat × Nat × Nat)
+  | .list [a, b, c] => do some (← a.asNat?, ← b.asNat?, ← c.asNat?)
+  | _ => none
+
+def parsePair : Sx → Option (Nat × Nat)
+  | .list [a, b] => do some (← a.asNat?, ← b.asNat?)
+  | _ => none
+
+def parsePart : Sx → Option Part
+  | .list [pid, needs, ins, outs, .list recvs, .list sends, pure] => do
+    let rs ← recvs.mapM parseTriple
+    let ss ← sends.mapM parseTriple
+    some { pid := ← pid.asNat?, needs := ← needs.asNats?, inputs := ← ins.asNats?,
+           outputs := ← outs.asNats?,
+           recvs := rs.map fun t => ⟨t.1, t.2.1, t.2.2⟩,
+           sends := ss.map fun t => ⟨t.1, t.2.1, t.2.2⟩,
+           pure := (← pure.asNat?) != 0 }
+  | _ => none
+
+def parseRank : Sx → Option RankProg
+  | .list [.list parts, user, overall] => do
+    some { parts := ← parts.mapM parsePart, user := ← user.asNats?, overall := ← overall.asNats? }
+  | _ => none
+
+def parsePartition : Sx → Option Partition
+  | .list ranks => ranks.mapM parseRank
+  | _ => none
+
+def parseGraph : Sx → Option CommGraph
+  | .list [.list sends, .list recvs] => do
+    let ss ← sends.mapM fun
+      | .list [r, d, t, .list deps] => do
+        some (⟨← r.asNat?, ← d.asNat?, ← t.asNat?, ← deps.mapM parsePair⟩ : SendOp)
+      | _ => none
+    let vs ← recvs.mapM fun x => do
+      let t ← parseTriple x
+      some (⟨t.1, t.2.1, t.2.2⟩ : RecvOp)
+    some ⟨ss, vs⟩
+  | _ => none
+
+/-! ### trace checking -/
+
+def unitSem : Sem Unit := { run := fun _ _ _ _ => (), input := fun _ _ => () }
+
+/-- every name rank `r` can ever hold -/
+def rankNames (P : Partition) (r : Nat) : List Name :=
+  P.user r ++ (P.parts r).flatMap fun p => p.inputs ++ p.outputs ++ p.recvNames
+
+def ctxKeys (P : Partition) (s : GState Unit) (r : Nat) : List Nat :=
+  sortNats ((rankNames P r).filter fun n => ((s.rk r).ctx n).isSome)
+
+def availIds (P : Partition) (s : GState Unit) (r : Nat) : List (Nat × Nat) :=
+  sortPairs (((allRecvs (P.parts r)).filter fun rc =>
+    decide (pending P s r rc ∧ arrived P s r rc)).map fun rc => (rc.src, rc.tag))
+
+structure Snap where
+  ctx : List Nat
+  executed : List Nat
+  completed : List Nat
+  rcs : List (Nat × Nat)
+
+def parseSnap (a b c d : Sx) : Option Snap := do
+  let rcs ← (← d.asList?).mapM parsePair
+  some ⟨← a.asNats?, ← b.asNats?, ← c.asNats?, rcs⟩
+
+def checkSnap (P : Partition) (s : GState Unit) (r : Nat) (sn : Snap) : Option String :=
+  let st := s.rk r
+  if ctxKeys P s r != sortNats sn.ctx then
+    some s!"context-keys model={showNatList (ctxKeys P s r)} real={showNatList (sortNats sn.ctx)}"
+  else if sortNats st.executed != sortNats sn.executed then
+    some s!"executed model={showNatList (sortNats st.executed)} real={showNatList (sortNats sn.executed)}"
+  else if sortNats st.completed != sortNats sn.completed then
+    some s!"completed model={showNatList (sortNats st.completed)} real={showNatList (sortNats sn.completed)}"
+  else match sn.rcs.find? (fun nc => st.rc nc.1 != nc.2) with
+    | some nc => some s!"refcount name={nc.1} model={st.rc nc.1} real={nc.2}"
+    | none => none
+
+/-- run one event; `Except reason state` -/
+def stepEvent (P : Partition) (s : GState Unit) : Sx → Except String (GState Unit)
+  | .list [.atom "x", r, pid, a, b, c, d] =>
+    match r.asNat?, pid.asNat?, parseSnap a b c d with
+    | some r, some pid, some sn =>
+      match checkSnap P s r sn with
+      | some why => .error s!"exec-snapshot r={r} pid={pid} {why}"
+      | none =>
+        match (P.parts r).find? (fun p => p.pid == pid) with
+        | none => .error s!"exec-unknown-part r={r} pid={pid}"
+        | some p =>
+          if r < P.length ∧ p.ready (s.rk r) then .ok (execG unitSem s r p)
+          else .error s!"exec-not-enabled r={r} pid={pid}"
+    | _, _, _ => .error "parse-x"
+  | .list [.atom "w", r, a, b, c, d] =>
+    match r.asNat?, parseSnap a b c d with
+    | some r, some sn =>
+      match checkSnap P s r sn with
+      | some why => .error s!"wait-snapshot r={r} {why}"
+      | none =>
+        if anyReady P s r then .error s!"wait-while-ready r={r}"
+        else if ¬ unfinished P s r then .error s!"wait-when-finished r={r}"
+        else .ok s
+    | _, _ => .error "parse-w"
+  | .list (.atom "c" :: ranks) =>
+    let parsed := ranks.mapM fun
+      | .list (r :: ids) => do some (← r.asNat?, sortPairs (← ids.mapM parsePair))
+      | _ => none
+    match parsed with
+    | none => .error "parse-c"
+    | some rs =>
+      match rs.find? (fun x => availIds P s x.1 != x.2) with
+      | some x => .error s!"available-set r={x.1}"
+      | none =>
+        match (List.range P.length).find? (fun r => !(rs.any fun x => x.1 == r) && decide (unfinished P s r)) with
+        | some r => .error s!"rank-not-waiting-but-unfinished r={r}"
+        | none => .ok s
+  | .list (.atom "d" :: r :: ids) =>
+    match r.asNat?, ids.mapM parsePair with
+    | some r, some ids =>
+      let S := (allRecvs (P.parts r)).filter fun rc => ids.contains (rc.src, rc.tag)
+      if S.length != ids.length then .error s!"deliver-unknown-receive r={r}"
+      else if r < P.length ∧ S ≠ [] ∧ (∀ rc ∈ S, pending P s r rc ∧ arrived P s r rc)
+          ∧ ¬ anyReady P s r ∧ unfinished P s r then .ok (deliverG s r S)
+      else .error s!"deliver-not-enabled r={r}"
+    | _, _ => .error "parse-d"
+  | .list [.atom "f", r] =>
+    match r.asNat? with
+    | some r => if unfinished P s r then .error s!"finished-but-model-unfinished r={r}" else .ok s
+    | none => .error "parse-f"
+  | .list [.atom "t"] =>
+    if (List.range P.length).all fun r => !decide (unfinished P s r) then .ok s
+    else .error "not-terminal"
+  | _ => .error "parse-event"
+
+def runTrace (P : Partition) : Nat → GState Unit → List Sx → String
+  | k, _, [] => s!"ok {k}"
+  | k, s, e :: es =>
+    match stepEvent P s e with
+    | .ok s' => runTrace P (k + 1) s' es
+    | .error why => s!"bad {k} {why}"
+
+def showOutcome : RankOutcome → String
+  | .raises ds => "(raises " ++ " ".intercalate (ds.map Diag.name) ++ ")"
+  | .blocked => "(blocked)"
+  | .returns => "(returns)"
+
+def showId (c : CommId) : String := s!"({c.src} {c.dst} {c.tag})"
+
+end DistIO
+
+open DistIO in
 def handleDist : List Sx → Option String
+  | [.atom "checkwf", p] => do
+    let P ← parsePartition p
+    if checkWF P then some "true"
+    else some ("false " ++ " ".intercalate ((failingClauses P).map fun x => s!"({x.1} {x.2})"))
+  | [.atom "levels", p] => do
+    let P ← parsePartition p
+    let lvl := computeLvl P
+    some ("(" ++ " ".intercalate ((partNodes P).map fun x => s!"({x.1} {x.2} {lvl x.1 x.2})") ++ ")")
+  | [.atom "trace", p, .list events] => do
+    let P ← parsePartition p
+    some (runTrace P 0 (init unitSem P) events)
+  | [.atom "batches", g] => do
+    let G ← parseGraph g
+    some ("(" ++ " ".intercalate (G.batches.map fun b => "(" ++ " ".intercalate (b.map showId) ++ ")") ++ ")")
+  | [.atom "diagnose", n, g] => do
+    let G ← parseGraph g
+    let n ← n.asNat?
+    let verdict := match diagnose G with
+      | .ok _ => "ok"
+      | .error d => d.name
+    let viol := " ".intercalate ((violated G).map Diag.name)
+    let find := " ".intercalate ((List.range n).map fun r => s!"({r} {showOutcome (findOutcome G n r)})")
+    let ver := " ".intercalate ((verifyOutcome G).map Diag.name)
+    some s!"{verdict} (violated {viol}) (find {find}) (verify {ver})"
+  | [.atom "numbertags", base, .list ranks] => do
+    let base ← base.asNat?
+    let gathered ← ranks.mapM Sx.asNats?
+    let (m, next) := numberTags base gathered
+    some ("(" ++ " ".intercalate (m.map fun x => s!"({x.1} {x.2})") ++ s!") {next}")
   | _ => none
 
 end Pt
